@@ -297,7 +297,7 @@ var verifC18TsPatterns = [][]int64{
 func VerifC18_content() {
 	vs := []int16{0, 2, 3, 9, 13}
 	if verifThorough() {
-		vs = []int16{0, 1, 2, 3, 4, 5, 6, 7, 8, 9, 10, 11, 12, 13}
+		vs = []int16{0, 1, 2, 3, 7, 8, 9, 12, 13}
 	}
 	ev := vs[verifChoose(len(vs))]
 	const nShapes = 6
@@ -305,6 +305,9 @@ func VerifC18_content() {
 	if verifThorough() {
 		nParts = 1 + verifChoose(2)
 		maxRecs, nPatterns, nSecond = 3, len(verifC18TsPatterns), nShapes
+		if nParts == 2 { // two partitions: fewer record combinations
+			maxRecs, nPatterns, nSecond = 2, 2, 1
+		}
 	}
 	nRecs := 1 + verifChoose(maxRecs)
 	// concrete per-record timestamp deltas (ms) around the varlong length boundaries; symbolic
